@@ -12,6 +12,7 @@ from common import D, REPO, VERIF, rng, write_replay, load_known
 
 WORKER = os.path.join(VERIF, "harness", "c20_worker.py")
 B1 = {"__dt__": D(2020, 5, 17, 12, 0).isoformat()}
+B2 = {"__dt__": D(2001, 7, 15, 8, 30).isoformat()}
 
 
 def call(s, langs, **st):
@@ -28,6 +29,10 @@ def pairs(tier):
     # differing only in settings no shared code reads
     P.append(("benign-settings", call("02/03/2015 10:30", ["en"], TIMEZONE="UTC"), call("02/03/2015 10:30", ["en"], TIMEZONE="+0530", RETURN_AS_TIMEZONE_AWARE=True)))
     P.append(("benign-settings", call("March 2015", ["en"], PREFER_DAY_OF_MONTH="first"), call("March 2015", ["en"], PREFER_DAY_OF_MONTH="last", PREFER_DATES_FROM="past")))
+    # differing only in the reference instant (relative phrases, incomplete dates), or in a zone word the string itself carries
+    P.append(("benign-settings", call("2 days ago", ["en"]), call("3 weeks ago", ["en"], RELATIVE_BASE=B2)))
+    P.append(("benign-settings", call("March", ["en"], PREFER_DATES_FROM="past"), call("Friday 10:30", ["en"], RELATIVE_BASE=B2, PREFER_DATES_FROM="past")))
+    P.append(("same-config", call("1 hour ago EST", ["en"]), call("in 1 hour", ["en"])))
     # differing in language / date order, SKIP_TOKENS, NORMALIZE
     P.append(("date-order", call("02/03/2015", ["fr"]), call("02/03/2015", ["en"])))
     P.append(("date-order", call("02/03/2015", ["fr"]), call("04/05/2016", ["fr"])))
@@ -56,21 +61,23 @@ def run(ctx):
     P = pairs(tier)
     jobs = []
     meta = []
+    PARTS = 3       # the preemption points of one (pair, role) are spread over this many processes
     for cls, A, B in P:
         for (X, Y, role) in ((A, B, "A-preempted"), (B, A, "B-preempted")):
-            job = {"A": X, "B": Y, "warm": True}
-            if tier == "quick" and cls not in ("same-config", "benign-settings"):
-                job["stride"] = 3          # pairs that are known to race: every third line is enough to keep the finding visible
-            jobs.append(job); meta.append((cls, X, Y, role, "warm"))
+            for part in range(PARTS):
+                job = {"A": X, "B": Y, "warm": True, "part": [part, PARTS]}
+                if tier == "quick" and cls not in ("same-config", "benign-settings"):
+                    job["stride"] = 3          # pairs that are known to race: every third line is enough to keep the finding visible
+                jobs.append(job); meta.append((cls, X, Y, role, part))
     import multiprocessing as mp
     with mp.get_context("fork").Pool(16) as pool:
         res = pool.map(run_job, jobs, chunksize=1)
         # cold exploration: a fresh process per sampled preemption point
         cold_jobs = []
         cold_meta = []
-        for (cls, X, Y, role, _), r in zip(meta, res):
+        for (cls, X, Y, role, part), r in zip(meta, res):
             n = r.get("lines") or 0
-            if not n:
+            if not n or part != 0:
                 continue
             ks = sorted(R.sample(range(1, 4 * n), min(4 * n - 1, 5 if tier == "quick" else 120)))   # cold runs execute more lines than warm ones
             for k in ks:
